@@ -375,4 +375,50 @@ def fhEntry (viaCtor : Bool) (fh : FhTok) (relIsBool : Bool) (rel : Bool) (enf :
         | some (raw, _) => (match FH.mk raw rel relIsBool with | .ok _ => pure () | .error _ => rej)
     else do let _ ← checkFh fh enf; pure ()) false
 
+/-! ### Static table: validation helpers called by each entry point, in source order
+
+Read from the source when the model was written (harness/extract/entrychecks.py re-reads it on every
+run and the check compares).  The check sequences above were written from these lists. -/
+def entryChecks : List (String × String) := [
+  ("check_series@series.py", "_check_is_univariate,check_time_index"),
+  ("check_time_index@series.py", "-"),
+  ("check_equal_time_index@series.py", "check_time_index,check_time_index"),
+  ("check_y_X@forecasting.py", "check_y,check_X,check_equal_time_index"),
+  ("check_y@forecasting.py", "check_series"),
+  ("check_X@forecasting.py", "check_series"),
+  ("check_fh@forecasting.py", "-"),
+  ("check_step_length@forecasting.py", "is_int"),
+  ("check_sp@forecasting.py", "is_int,is_int"),
+  ("check_cv@forecasting.py", "-"),
+  ("check_window_length@__init__.py", "is_int"),
+  ("_SktimeForecaster._set_y_X@_sktime.py", "check_y_X"),
+  ("_SktimeForecaster._update_y_X@_sktime.py", "check_y_X"),
+  ("_SktimeForecaster.predict@_sktime.py", "check_is_fitted,_set_fh"),
+  ("_SktimeForecaster.update@_sktime.py", "check_is_fitted,_update_y_X"),
+  ("_SktimeForecaster.update_predict@_sktime.py", "check_is_fitted,check_y,check_cv"),
+  ("_SktimeForecaster.update_predict_single@_sktime.py", "check_is_fitted,_set_fh"),
+  ("_BaseWindowForecaster.update_predict@_sktime.py", "check_is_fitted,check_cv"),
+  ("_OptionalForecastingHorizonMixin._set_fh@_sktime.py", "check_fh"),
+  ("_RequiredForecastingHorizonMixin._set_fh@_sktime.py", "check_fh"),
+  ("NaiveForecaster.fit@naive.py", "_set_y_X,_set_fh,check_sp,check_window_length,check_sp,check_window_length"),
+  ("BaseSplitter.split@_split.py", "_check_y"),
+  ("BaseWindowSplitter._split@_split.py", "check_step_length,check_window_length,check_window_length,_check_fh,_check_window_lengths"),
+  ("CutoffSplitter._split@_split.py", "check_cutoffs,_check_fh,check_window_length"),
+  ("SingleWindowSplitter._split@_split.py", "check_window_length,_check_fh,_check_window_lengths"),
+  ("temporal_train_test_split@_split.py", "-"),
+  ("_split_by_fh@_split.py", "check_series,check_series,check_equal_time_index,check_fh"),
+  ("evaluate@_functions.py", "_check_strategy,check_cv,check_scoring,check_y_X"),
+  ("BaseGridSearch.fit@_tune.py", "check_y_X,check_cv,check_scoring"),
+  ("_Reducer.fit@_reduce.py", "_set_y_X,_set_fh,check_step_length,check_window_length"),
+  ("make_reduction@_reduce.py", "_check_strategy,_check_scitype"),
+  ("_sliding_window_transform@_reduce.py", "check_window_length,_check_fh"),
+  ("EnsembleForecaster.fit@_ensemble.py", "_set_y_X,_set_fh,_check_forecasters"),
+  ("TransformedTargetForecaster.fit@_pipeline.py", "_check_steps,_set_y_X,_set_fh,check_y"),
+  ("MultiplexForecaster.fit@_multiplexer.py", "_set_y_X,_set_fh,_check_forecasters,_check_fit_params"),
+  ("StackingForecaster.fit@_stack.py", "_set_y_X,_set_fh,_check_forecasters,_check_final_regressor"),
+  ("_HeterogenousEnsembleForecaster._check_forecasters@_meta.py", "_check_names")
+]
+
+def entryChecksOf (k : String) : Option String := (entryChecks.find? (·.1 == k)).map (·.2)
+
 end SkVerif.Val
